@@ -52,7 +52,12 @@ EXPLANATION = (
     "Factories carry the value they return (object, None, 0, '', [], False): a factory returns at most once per "
     "invocation (C22_created_once_per_invocation) and no transition reads the value (C22_value_independent: the runs "
     "of a graph and of the same graph with all values replaced by ordinary objects are equal), so a stored falsy "
-    "value is a cache hit like any other. The same statements for serial schedules of "
+    "value is a cache hit like any other. Schedules include cancel actions (CancelledError thrown into an invocation "
+    "suspended in an async factory at any depth of its chain, or queued on the scope lock), so all of the above holds "
+    "after any mix of completions, errors and cancellations, and whenever no invocation is inside a scope _resolving, "
+    "the depth and the scoped cache are neutral (C22_neutral_after_cancellations); the runs cancel invocations at "
+    "those points, end workflow runs with cancel_run while a step is suspended in a resource factory and run the same "
+    "workflow instance again. The same statements for serial schedules of "
     "the unlocked code (C22_sequential), and three refutations of the unlocked code by concrete interleavings (false "
     "cycle error, non-cached object shared by two invocations, stale scoped value after a bare get). C22_concurrent "
     "is stated for the configuration regenerated from the sources, so it only checks on a tree with exclusive scopes. "
@@ -71,8 +76,13 @@ ASSUMPTIONS = [
     "asyncio.Lock are assumed, exercised by the correspondence runs, not proved)",
     "an async factory suspends exactly once per call; a sync factory never (a factory that awaits several times "
     "changes no manager state in between)",
-    "task cancellation while resolving (CancelledError thrown into a suspended factory or lock wait) is not modelled; "
-    "the code's try/finally and `async with` handle it and the workflow-level monitors run over such executions",
+    "cancellation is modelled where a task can receive it at a quiescent point: suspended at the await of an async "
+    "factory (CancelledError then unwinds every _get activation like an exception) or queued on the scope lock; that "
+    "asyncio.Lock passes a lock on when a woken waiter is cancelled, and that the engine cancels all workers of a run "
+    "before any of them runs again (cleanup_tasks), is exercised by the correspondence runs, not proved; that the lock "
+    "itself is free once every invocation has ended is checked on the runs (state field lk, rule "
+    "C22/stale_resolution_state[lock]), not stated as a theorem; a run ended by the workflow timeout goes through the "
+    "same cleanup_tasks as cancel_run and is not driven separately",
     "one descriptor per resource name; ResourceManager.set() by hand and _ResourceConfig (no dependencies, always "
     "cached) are outside the model",
     "tasks are created by invocations that have finished resolving (their scope is closed); a task created while its "
@@ -793,7 +803,10 @@ def run(env: Env) -> Outcome:
                 "x adaptive schedules of 1-6 invocations (real partial() or bare get) opening gates at quiescent points, "
                 "in 30% of the cases as a task tree (invocations created by finished invocations, in a copy of their "
                 "context, nested); real workflows with concurrent worker steps, 40% run from a step with an injected "
-                "resource of 1-2 enclosing workflows, 25% after the caller resolved resources through the manager; non-trivial = at least two invocations or a dependency edge; "
+                "resource of 1-2 enclosing workflows, 25% after the caller resolved resources through the manager; 35% of the "
+                "direct schedules cancel up to 3 unfinished invocations (suspended in a factory / queued on the lock) and go on; "
+                "45% of the stand-alone workflows first have 1-2 runs ended by cancel_run with a step suspended in a resource "
+                "factory, then run the same instance to completion; non-trivial = at least two invocations or a dependency edge; "
                 "distinct by (graph, op list)")
     cfg = tree_cfg()
     out.notes.append(f"tree configuration: exclusive scopes={cfg['excl']} partial skips empty={cfg['skip']}")
